@@ -195,6 +195,32 @@ func typecheckPair(repo, pair string) (r struct {
 		r.err = err
 		return
 	}
+	// android/386, android/amd64, android/arm, ios/*: the go command refuses to list anything with cgo
+	// disabled ("requires external (cgo) linking"). That is a linker-mode rule of the toolchain, not a
+	// property of the sources: load again with cgo enabled (the module contains no cgo, see the nocgo rule;
+	// none of its dependencies needs a C compiler to be type-checked).
+	needCgo := false
+	packages.Visit(all, nil, func(pk *packages.Package) {
+		for _, e := range pk.Errors {
+			if strings.Contains(e.Error(), "requires external (cgo) linking") {
+				needCgo = true
+			}
+		}
+	})
+	if needCgo {
+		env := []string{}
+		for _, e := range cfg.Env {
+			if !strings.HasPrefix(e, "CGO_ENABLED=") {
+				env = append(env, e)
+			}
+		}
+		cfg.Env = append(env, "CGO_ENABLED=1")
+		all, err = packages.Load(cfg, "./...")
+		if err != nil {
+			r.err = err
+			return
+		}
+	}
 	packages.Visit(all, nil, func(pk *packages.Package) {
 		mine := pk.PkgPath == modPath || strings.HasPrefix(pk.PkgPath, modPath+"/")
 		if mine {
